@@ -1,0 +1,189 @@
+//go:build verif
+
+package functioncontracts
+
+import (
+	"fmt"
+	"go/ast"
+	"go/types"
+
+	"go.uber.org/nilaway/util/analysishelper"
+	"go.uber.org/nilaway/util/typeshelper"
+	"golang.org/x/tools/go/analysis/passes/buildssa"
+	"golang.org/x/tools/go/ssa"
+)
+
+// This file is only compiled with the `verif` build tag. For every function of a package on which the contract
+// inference runs, it renders the SSA form in the abstract vocabulary the inference looks at (blocks with
+// predecessors / successors, phis, the nil comparison a block ends with, the returned value; values classified the
+// way nilnessOf classifies them) and returns it together with what the REAL inferContracts infers.
+
+// VerifValue is one SSA value as nilnessOf / expandNilness see it.
+type VerifValue struct {
+	// Kind: "param" (the contracted parameter), "nil", "constunk" (a constant that is not nil: unknown, no table
+	// lookup), "nonnil" (intrinsically non-nil), "chgiface" / "mkiface" / "slice" (X), "s2ap" (X, LenPos),
+	// "append1" (X), "appendn", "phi" (Edges), "other"
+	Kind   string
+	X      int
+	LenPos bool
+	Edges  []int
+}
+
+// VerifBlock is one basic block.
+type VerifBlock struct {
+	Preds, Succs []int
+	Phis         []int // value ids of the block's phi instructions, in order
+	// the comparison the block ends with, if it ends with an If on a BinOp
+	HasIf      bool
+	Op         string // "==", "!=", or another operator
+	X, Y       int
+	BarsNil    bool // TypeBarsNilness(X.Type())
+	EndsReturn bool // no successors and the last instruction is a Return
+	Ret        int  // value id of Results[0]
+}
+
+// VerifFunc is one function with the real inference's verdict.
+type VerifFunc struct {
+	Pkg, Name string
+	Param     int
+	Values    []VerifValue
+	Blocks    []VerifBlock
+	Inferred  bool // the real inferContracts returned contract(nonnil -> nonnil)
+	Panic     string
+}
+
+// VerifInferAll mirrors the selection of collectFunctionContracts (functions without a hand-written contract, one
+// declared parameter, one result, both of a type that can be nil, not variadic, with a body) and, for each selected
+// function, returns its abstract SSA form and the result of the real inference.
+func VerifInferAll(pass *analysishelper.EnhancedPass) []VerifFunc {
+	ssaInput := pass.ResultOf[buildssa.Analyzer].(*buildssa.SSA)
+	ssaOfFunc := make(map[*types.Func]*ssa.Function, len(ssaInput.SrcFuncs))
+	for _, fnssa := range ssaInput.SrcFuncs {
+		if fnssa == nil {
+			continue
+		}
+		if funcObj, ok := fnssa.Object().(*types.Func); ok {
+			ssaOfFunc[funcObj] = fnssa
+		}
+	}
+	var out []VerifFunc
+	for _, file := range pass.Files {
+		for _, decl := range file.Decls {
+			funcDecl, ok := decl.(*ast.FuncDecl)
+			if !ok {
+				continue
+			}
+			funcObj := pass.TypesInfo.ObjectOf(funcDecl.Name).(*types.Func)
+			if len(parseContracts(funcDecl.Doc)) != 0 {
+				continue
+			}
+			sig := funcObj.Type().(*types.Signature)
+			if funcDecl.Type.Params.NumFields() != 1 || funcDecl.Type.Results.NumFields() != 1 ||
+				typeshelper.TypeBarsNilness(sig.Params().At(0).Type()) || typeshelper.TypeBarsNilness(sig.Results().At(0).Type()) ||
+				sig.Variadic() {
+				continue
+			}
+			fnssa, ok := ssaOfFunc[funcObj]
+			if !ok || len(fnssa.Blocks) == 0 {
+				continue
+			}
+			out = append(out, verifDump(pass.Pkg.Path(), fnssa))
+		}
+	}
+	return out
+}
+
+func verifDump(pkg string, fn *ssa.Function) (res VerifFunc) {
+	res.Pkg, res.Name = pkg, fn.Name()
+	if fn.Signature.Recv() != nil {
+		res.Name = fmt.Sprintf("(%s).%s", fn.Signature.Recv().Type(), fn.Name())
+	}
+	param := fn.Params[len(fn.Params)-fn.Signature.Params().Len()]
+	ids := map[ssa.Value]int{}
+	var visit func(v ssa.Value) int
+	visit = func(v ssa.Value) int {
+		if id, ok := ids[v]; ok {
+			return id
+		}
+		id := len(res.Values)
+		ids[v] = id
+		res.Values = append(res.Values, VerifValue{Kind: "other", X: -1})
+		val := VerifValue{Kind: "other", X: -1}
+		switch v := v.(type) {
+		case *ssa.ChangeInterface:
+			val = VerifValue{Kind: "chgiface", X: visit(v.X)}
+		case *ssa.MakeInterface:
+			val = VerifValue{Kind: "mkiface", X: visit(v.X)}
+		case *ssa.Slice:
+			val = VerifValue{Kind: "slice", X: visit(v.X)}
+		case *ssa.SliceToArrayPointer:
+			val = VerifValue{Kind: "s2ap", X: visit(v.X), LenPos: v.Type().Underlying().(*types.Pointer).Elem().Underlying().(*types.Array).Len() > 0}
+		case *ssa.Call:
+			if isBuiltinAppendCall(v) {
+				if len(v.Call.Args) > 1 {
+					val = VerifValue{Kind: "appendn", X: -1}
+				} else {
+					val = VerifValue{Kind: "append1", X: visit(v.Call.Args[0])}
+				}
+			}
+		case *ssa.Alloc, *ssa.FieldAddr, *ssa.FreeVar, *ssa.Function, *ssa.Global, *ssa.IndexAddr, *ssa.MakeChan,
+			*ssa.MakeClosure, *ssa.MakeMap, *ssa.MakeSlice:
+			val = VerifValue{Kind: "nonnil", X: -1}
+		case *ssa.Const:
+			if v.IsNil() {
+				val = VerifValue{Kind: "nil", X: -1}
+			} else {
+				val = VerifValue{Kind: "constunk", X: -1}
+			}
+		case *ssa.Phi:
+			val = VerifValue{Kind: "phi", X: -1}
+			for _, e := range v.Edges {
+				val.Edges = append(val.Edges, visit(e))
+			}
+		}
+		if v == ssa.Value(param) {
+			val = VerifValue{Kind: "param", X: -1}
+		}
+		res.Values[id] = val
+		return id
+	}
+	res.Param = visit(param)
+	for _, b := range fn.Blocks {
+		vb := VerifBlock{X: -1, Y: -1, Ret: -1}
+		for _, p := range b.Preds {
+			vb.Preds = append(vb.Preds, p.Index)
+		}
+		for _, s := range b.Succs {
+			vb.Succs = append(vb.Succs, s.Index)
+		}
+		for _, instr := range b.Instrs {
+			if phi, ok := instr.(*ssa.Phi); ok {
+				vb.Phis = append(vb.Phis, visit(phi))
+			}
+		}
+		if len(b.Instrs) > 0 {
+			switch last := b.Instrs[len(b.Instrs)-1].(type) {
+			case *ssa.If:
+				if binOp, ok := last.Cond.(*ssa.BinOp); ok {
+					vb.HasIf, vb.Op = true, binOp.Op.String()
+					vb.X, vb.Y = visit(binOp.X), visit(binOp.Y)
+					vb.BarsNil = typeshelper.TypeBarsNilness(binOp.X.Type())
+				}
+			case *ssa.Return:
+				if len(b.Succs) == 0 {
+					vb.EndsReturn, vb.Ret = true, visit(last.Results[0])
+				}
+			}
+		}
+		res.Blocks = append(res.Blocks, vb)
+	}
+	func() {
+		defer func() {
+			if r := recover(); r != nil {
+				res.Panic = fmt.Sprint(r)
+			}
+		}()
+		res.Inferred = len(inferContracts(fn)) != 0
+	}()
+	return res
+}
